@@ -7,6 +7,14 @@
    CRace n     the number of data-race reports of the Go race detector during the loads of this
                run (supporting test; the proved statement is the lockset discipline).
 
+   CCold v g s n  the number of data-race reports of one COLD start: a fresh -race process whose
+               very first library calls are issued by g goroutines at once (variant v: own or
+               shared registry / server; directly on ocimem, raw requests to ociserver, ociclient
+               in process or over a loopback server; seed s fixes each goroutine's order of
+               operations).  State initialised on first use is touched unsynchronised only by the
+               first calls of a process; the long-lived load process of CRace warms it
+               sequentially.  v, g and s identify the input; the verdict is on n alone.
+
    CHist ...   a history recorded from concurrent goroutines on the real ocimem (invocation
                and response events in real-time order, results projected as in MemObs).
                obs_ok: linearisation points can be inserted that make it a valid
@@ -58,7 +66,8 @@ Definition cmp_of (http : bool) : oresult -> result -> bool := if http then agre
 Inductive case :=
   | CStruct (t : stable)
   | CHist (o : oracles) (imm : bool) (http : bool) (nthreads : nat) (h : list (hev (Resp := oresult)))
-  | CRace (reports : N).
+  | CRace (reports : N)
+  | CCold (variant goroutines seed reports : N).
 
 Section WithCase.
   Variables (o : oracles) (imm : bool) (http : bool).
@@ -103,6 +112,7 @@ Definition model_agrees (c : case) : bool :=
   | CStruct t => table_eq t Conc.structure
   | CHist o imm http n h => lin_undecided o imm http h || (table_ok o && model_replays o imm http n h)
   | CRace n => N.eqb n 0
+  | CCold _ _ _ n => N.eqb n 0
   end.
 
 (* the specification, evaluated on the observation itself *)
@@ -111,6 +121,7 @@ Definition obs_ok (c : case) : bool :=
   | CStruct t => structure_ok t
   | CHist o imm http n h => lin_undecided o imm http h || lin_check o imm http h
   | CRace n => N.eqb n 0
+  | CCold _ _ _ n => N.eqb n 0
   end.
 
 Definition nontrivial (c : case) : bool :=
@@ -118,6 +129,7 @@ Definition nontrivial (c : case) : bool :=
   | CStruct _ => true
   | CHist o imm http _ h => overlaps 0 h && negb (lin_undecided o imm http h)
   | CRace _ => true
+  | CCold _ g _ _ => N.leb 2 g      (* at least two first callers *)
   end.
 
 (* what obs_ok means for a history: it is linearizable w.r.t. the sequential registry *)
@@ -135,7 +147,7 @@ Proof. split; [reflexivity|]. apply Forall_forall. intros th Hin. apply repeat_s
 
 Lemma corr_sound c : model_agrees c = true -> obs_ok c = true.
 Proof.
-  destruct c as [t | o imm http n h | n]; cbn; [| |auto].
+  destruct c as [t | o imm http n h | n | v g sd n]; cbn; [| |auto|auto].
   - apply table_eq_structure_ok.
   - destruct (lin_undecided o imm http h); [reflexivity|]. cbn [orb].
     rewrite andb_true_iff. intros [Ht Hm]. unfold model_replays, lin_check in *.
